@@ -84,6 +84,15 @@ func (h *NFSProcedureHandler) handleCreate(body io.Reader, reply *RPCReply, auth
 		return nfsErrorWithWcc(reply, NFSERR_STALE), nil
 	}
 
+	// The parent must be a directory. Without this check a handle of a symbolic link to a
+	// directory would be resolved by the backend, creating the object behind the link.
+	node.mu.RLock()
+	parentIsDir := node.attrs != nil && node.attrs.Mode&os.ModeDir != 0
+	node.mu.RUnlock()
+	if !parentIsDir {
+		return nfsErrorWithWcc(reply, NFSERR_NOTDIR), nil
+	}
+
 	// R23: Return NFS error instead of nil,err
 	dirPreAttrs, err := h.server.handler.GetAttr(node)
 	if err != nil {
@@ -234,6 +243,15 @@ func (h *NFSProcedureHandler) handleMkdir(body io.Reader, reply *RPCReply, authC
 		return nfsErrorWithWcc(reply, NFSERR_STALE), nil
 	}
 
+	// The parent must be a directory. Without this check a handle of a symbolic link to a
+	// directory would be resolved by the backend, creating the object behind the link.
+	node.mu.RLock()
+	parentIsDir := node.attrs != nil && node.attrs.Mode&os.ModeDir != 0
+	node.mu.RUnlock()
+	if !parentIsDir {
+		return nfsErrorWithWcc(reply, NFSERR_NOTDIR), nil
+	}
+
 	// R23: Return NFS error instead of nil,err
 	dirPreAttrs, err := h.server.handler.GetAttr(node)
 	if err != nil {
@@ -363,6 +381,15 @@ func (h *NFSProcedureHandler) handleSymlink(body io.Reader, reply *RPCReply, aut
 	node, ok := h.lookupNode(handleVal)
 	if !ok {
 		return nfsErrorWithWcc(reply, NFSERR_STALE), nil
+	}
+
+	// The parent must be a directory. Without this check a handle of a symbolic link to a
+	// directory would be resolved by the backend, creating the object behind the link.
+	node.mu.RLock()
+	parentIsDir := node.attrs != nil && node.attrs.Mode&os.ModeDir != 0
+	node.mu.RUnlock()
+	if !parentIsDir {
+		return nfsErrorWithWcc(reply, NFSERR_NOTDIR), nil
 	}
 
 	// R23: Return NFS error instead of nil,err
